@@ -376,7 +376,8 @@ impl Handler {
     ) {
         let (exit_sender, exit) = oneshot::channel();
         let (handler_send, service_recv) = mpsc::unbounded_channel();
-        let (service_send, handler_recv) = mpsc::channel(channel_capacity);
+        // the channel to the application has the capacity `Handler::spawn` gives it (back-pressure is part of the behaviour)
+        let (service_send, handler_recv) = mpsc::channel(50);
         let (wire_send, wire_out) = mpsc::channel(channel_capacity);
         let (wire_in, wire_recv) = mpsc::channel(channel_capacity);
         let filter_expected_responses = Arc::new(RwLock::new(HashMap::new()));
